@@ -167,7 +167,7 @@ theorem iter_lt (T : LexTables) (src : List Nat) (L : Loop) (h : L.pos < src.len
 /-- Invariant of `for state != -1` while the automaton is live (`s0` = cursor offset at entry of
     `Scan`): cursor and token start are reachable triples, and either the last pass recorded
     `(typ, end_)` with `end_ = pos`, or nothing has been read since the (re)start. -/
-structure Inv (src : List Nat) (s0 : Nat) (L : Loop) : Prop where
+structure ScanInv (src : List Nat) (s0 : Nat) (L : Loop) : Prop where
   rc : Reach src ⟨L.pos, L.line, L.col⟩
   rs : Reach src ⟨L.start, L.startLine, L.startCol⟩
   s0 : s0 ≤ L.start
@@ -177,17 +177,17 @@ structure Inv (src : List Nat) (s0 : Nat) (L : Loop) : Prop where
 /-- What holds when the loop has ended (`state = -1`): if a lexeme was recorded
     (`end_ > start`) the consistent cursor is `⟨end_, line, col⟩`, otherwise it is
     `⟨pos, line, col⟩`, nothing was read after the last restart and the input is exhausted. -/
-structure Post (src : List Nat) (s0 : Nat) (L : Loop) : Prop where
+structure ScanPost (src : List Nat) (s0 : Nat) (L : Loop) : Prop where
   rs : Reach src ⟨L.start, L.startLine, L.startCol⟩
   s0 : s0 ≤ L.start
   hi : L.end_ > L.start → Reach src ⟨L.end_, L.line, L.col⟩
   lo : ¬ L.end_ > L.start → Reach src ⟨L.pos, L.line, L.col⟩ ∧ L.pos = L.start ∧ src.length ≤ L.pos
 
-def Good (src : List Nat) (s0 : Nat) (L : Loop) : Prop :=
-  if L.state = -1 then Post src s0 L else Inv src s0 L
+def ScanGood (src : List Nat) (s0 : Nat) (L : Loop) : Prop :=
+  if L.state = -1 then ScanPost src s0 L else ScanInv src s0 L
 
 theorem iter_good {T : LexTables} (hT : TWF T) {src : List Nat} {s0 : Nat} {L : Loop}
-    (h : Inv src s0 L) : Good src s0 (iter T src L) := by
+    (h : ScanInv src s0 L) : ScanGood src s0 (iter T src L) := by
   obtain ⟨rc, rs, hs0, alt⟩ := h
   by_cases hlt : L.pos < src.length
   · have hstep := Reach.step rc hlt
@@ -200,24 +200,24 @@ theorem iter_good {T : LexTables} (hT : TWF T) {src : List Nat} {s0 : Nat} {L : 
       rename_i hnext
       split
       · -- accept
-        unfold Good; rw [if_neg hnext]
+        unfold ScanGood; rw [if_neg hnext]
         exact ⟨hstep, rs, hs0, Or.inl ⟨rfl, by dsimp only; omega⟩⟩
       · rename_i hacc
         have hacc' : T.accept (T.trans L.state.toNat (decodeRune (src.drop L.pos)).1).toNat = -1 := by
           simpa using hacc
         rw [if_pos (hT _ hacc')]
-        unfold Good; rw [if_neg (by dsimp only; decide)]
+        unfold ScanGood; rw [if_neg (by dsimp only; decide)]
         refine ⟨hstep, hstep, by dsimp only; omega, Or.inr ⟨rfl, ?_, ?_⟩⟩
         · dsimp only; omega
         · dsimp only; intro hp; rw [if_neg (by omega)]
     · -- dead: the loop ends
       split
       · rename_i htyp
-        unfold Good; rw [if_pos rfl]
+        unfold ScanGood; rw [if_pos rfl]
         refine ⟨rs, hs0, fun _ => hstep, fun hn => ?_⟩
         dsimp only at hn; omega
       · rename_i htyp
-        unfold Good; rw [if_pos rfl]
+        unfold ScanGood; rw [if_pos rfl]
         rcases alt with ⟨he, hsp⟩ | ⟨hps, hes, hty⟩
         · refine ⟨rs, hs0, fun _ => ?_, fun hn => ?_⟩
           · dsimp only; rw [he]; exact rc
@@ -226,14 +226,14 @@ theorem iter_good {T : LexTables} (hT : TWF T) {src : List Nat} {s0 : Nat} {L : 
   · have hle : src.length ≤ L.pos := by omega
     rw [iter_eof T src L hle]
     split
-    · unfold Good; rw [if_pos rfl]
+    · unfold ScanGood; rw [if_pos rfl]
       refine ⟨rs, hs0, fun hgt => ?_, fun hn => ?_⟩
       · dsimp only at hgt ⊢; exact rc
       · dsimp only at hn ⊢
         rcases alt with ⟨he, hsp⟩ | ⟨hps, hes, hty⟩
         · omega
         · exact ⟨rc, hps, hle⟩
-    · unfold Good; rw [if_pos rfl]
+    · unfold ScanGood; rw [if_pos rfl]
       rcases alt with ⟨he, hsp⟩ | ⟨hps, hes, hty⟩
       · refine ⟨rs, hs0, fun _ => ?_, fun hn => ?_⟩
         · dsimp only; rw [he]; exact rc
@@ -242,16 +242,16 @@ theorem iter_good {T : LexTables} (hT : TWF T) {src : List Nat} {s0 : Nat} {L : 
         dsimp only at hgt; omega
 
 theorem loop_post {T : LexTables} (hT : TWF T) {src : List Nat} {s0 : Nat} (L : Loop)
-    (h : Good src s0 L) : Post src s0 (loop T src L) := by
+    (h : ScanGood src s0 L) : ScanPost src s0 (loop T src L) := by
   fun_induction loop T src L with
-  | case1 L hs => unfold Good at h; rwa [if_pos hs] at h
+  | case1 L hs => unfold ScanGood at h; rwa [if_pos hs] at h
   | case2 L hs hlt ih =>
-    unfold Good at h; rw [if_neg hs] at h
+    unfold ScanGood at h; rw [if_neg hs] at h
     exact ih (iter_good hT h)
   | case3 L hs hlt =>
-    unfold Good at h; rw [if_neg hs] at h
+    unfold ScanGood at h; rw [if_neg hs] at h
     have := iter_good (T := T) hT h
-    unfold Good at this; rwa [if_pos (iter_state_eof T src L hlt)] at this
+    unfold ScanGood at this; rwa [if_pos (iter_state_eof T src L hlt)] at this
 
 /-! ### one call of `Scan` -/
 
@@ -276,8 +276,8 @@ theorem scan_lt (T : LexTables) (src : List Nat) (st : LexSt) (h : st.pos < src.
            line := L.startLine, col := L.startCol }, ⟨L.pos, L.line, L.col⟩) := by
   unfold scan; rw [if_neg (by omega)]; rfl
 
-theorem loop0_good {src : List Nat} {st : LexSt} (h : Reach src st) : Good src st.pos (loop0 st) := by
-  unfold Good; rw [if_neg (by unfold loop0; dsimp only; decide)]
+theorem loop0_good {src : List Nat} {st : LexSt} (h : Reach src st) : ScanGood src st.pos (loop0 st) := by
+  unfold ScanGood; rw [if_neg (by unfold loop0; dsimp only; decide)]
   exact ⟨h, h, Nat.le_refl _, Or.inr ⟨rfl, Nat.zero_le _, fun _ => rfl⟩⟩
 
 /-- everything C08 says about one call, in one statement -/
@@ -319,7 +319,7 @@ def scanStatesFrom (T : LexTables) (src : List Nat) (st : LexSt) : Nat → LexSt
 def scanStates (T : LexTables) (src : List Nat) (k : Nat) : LexSt := scanStatesFrom T src newLexer k
 
 /-- the token returned by call number `k` (counting from 0) on a new lexer -/
-def scanTok (T : LexTables) (src : List Nat) (k : Nat) : Tok := (scan T src (scanStates T src k)).1
+def scanTokAt (T : LexTables) (src : List Nat) (k : Nat) : Tok := (scan T src (scanStates T src k)).1
 
 theorem scanStates_zero (T : LexTables) (src : List Nat) : scanStates T src 0 = newLexer := rfl
 
